@@ -275,8 +275,59 @@ def _dismantle(tree):
         cur = nxt
 
 
+def numeric_folds(ctx):
+    """Folds over trees of VALUES (not opaque leaves): tree_sum / tree_max / tree_min / tree_reduce must equal the Python
+    builtin applied to tree_leaves exactly -- floats whose partial sums are inexact, big ints, Fractions, Decimals, strings,
+    bools, mixed int/float."""
+    import operator  # noqa: PLC0415
+    from decimal import Decimal  # noqa: PLC0415
+    from fractions import Fraction  # noqa: PLC0415
+
+    value_sets = {
+        'floats-inexact': [0.1, 0.2, 0.3], 'floats-cancel': [1e16, 1.0, -1e16], 'floats-many': [0.1] * 10,
+        'ints-big': [2**70, -2**69, 7], 'fractions': [Fraction(1, 3), Fraction(1, 6), Fraction(1, 2)],
+        'decimals': [Decimal('0.1'), Decimal('0.2'), Decimal('0.3')], 'bools': [True, False, True],
+        'int-float': [1, 2.5, 3], 'float-nan': [1.0, float('inf'), -1.0], 'strs': ['b', 'a', 'c'],
+        'single': [0.5], 'empty': [],
+    }
+    shapes = {
+        'flat-list': lambda v: list(v), 'dict': lambda v: {f'k{len(v) - i}': x for i, x in enumerate(v)},
+        'nested': lambda v: (v[:1], {'z': v[1:2], 'a': tuple(v[2:])}) if v else ((), {}),
+    }
+    for vname, vals in value_sets.items():
+        for sname, mk in shapes.items():
+            tree = mk(vals)
+            ls = optree.tree_leaves(tree)
+            ctx.count()
+            ctx.cls(('numeric-fold', vname, sname))
+            case = {'numeric_fold': vname, 'shape': sname}
+            folds = {
+                'sum': (lambda: optree.tree_sum(tree), lambda: sum(ls)),
+                'sum-start': (lambda: optree.tree_sum(tree, 0.5), lambda: sum(ls, 0.5)),
+                'reduce-add': (lambda: optree.tree_reduce(operator.add, tree, 0), lambda: functools.reduce(operator.add, ls, 0)),
+                'reduce-add-noinit': (lambda: optree.tree_reduce(operator.add, tree), lambda: functools.reduce(operator.add, ls)),
+                'max': (lambda: optree.tree_max(tree), lambda: max(ls)), 'min': (lambda: optree.tree_min(tree), lambda: min(ls)),
+                'max-default': (lambda: optree.tree_max(tree, default=-1), lambda: max(ls, default=-1)),
+                'min-key': (lambda: optree.tree_min(tree, key=lambda x: -x if not isinstance(x, str) else x),
+                            lambda: min(ls, key=lambda x: -x if not isinstance(x, str) else x)),
+                'all': (lambda: optree.tree_all(tree), lambda: all(ls)), 'any': (lambda: optree.tree_any(tree), lambda: any(ls)),
+            }
+            if vname == 'strs':
+                folds = {k: v for k, v in folds.items() if k in ('max', 'min', 'min-key', 'all', 'any', 'reduce-add-noinit')}
+                folds['sum-str'] = (lambda: optree.tree_sum(tree, ''), lambda: ''.join(ls))
+            for fname, (got_f, want_f) in folds.items():
+                got, want = outcome_of(got_f), outcome_of(want_f)
+                same = got == want and (got[0] != 'ok' or type(got[1]) is type(want[1])) or (
+                    got[0] == 'ok' == want[0] and got[1] != got[1] and want[1] != want[1])  # both NaN
+                if not same:
+                    ctx.violation(f'numeric-fold:{fname}', f'{PROP}:fold', case, f'{fname} over {ls!r}: {got!r} vs builtin {want!r}')
+            ctx.outcome('numeric-fold')
+
+
 def run_shard(ctx):
     sys.setrecursionlimit(20000)
+    if ctx.shard == 0:
+        numeric_folds(ctx)
     e1.drive(ctx, ctx.tier, lambda tree, leaves, dsl, cfg: check(ctx, tree, leaves, dsl, cfg),
              profile='small' if ctx.tier == 'quick' else 'full', extra_strata=(('aliasing', tuple(gen.aliasing_trees())),))
     for i, c in enumerate(malformed_cases()):
@@ -294,7 +345,9 @@ def run_shard(ctx):
 def replay(case, ctx):
     sys.setrecursionlimit(20000)
     c = case['case']
-    if 'malformed' in c:
+    if 'numeric_fold' in c:
+        numeric_folds(ctx)
+    elif 'malformed' in c:
         check_malformed(ctx, c['malformed'])
     elif 'depth' in c:
         check_depth(ctx, c['depth'])
